@@ -95,6 +95,8 @@ def check1d(case):
     sA, sB = mk(), mk()
     gA, gB = fA.copy(), fB.copy()
     for s_ in range(case["nsteps"]):
+        if dtl and not (np.all(np.isfinite(P.disc.calc_timestep(gA, case["cfl"]))) and np.all(np.isfinite(P.disc.calc_timestep(gB, case["cfl"])))):
+            raise Skip("infinite local time step (Burgers cell with u = 0 under dtlocal)")
         sim.advance(sA, P.disc, gA, case["cfl"], dtlocal=dtl)
         sim.advance(sB, P.disc, gB, case["cfl"], dtlocal=dtl)
         if not (sim.admissible(P.smd, gA.data) and sim.admissible(P.smd, gB.data)):
